@@ -95,6 +95,10 @@ func runFor(c tcase, grace time.Duration) outcome {
 		limit = time.Duration(c.LimitMs) * time.Millisecond
 		ctl.JavascriptTimeout = core.Duration(limit)
 	}
+	if c.Setting == "control-negative" {
+		// documented in RunJavascript: a negative location timeout means no timeout for that location
+		ctl.JavascriptTimeout = core.Duration(-1)
+	}
 	loc.SetControl(ctl)
 	ctx := drv.Ctx()
 	bs := core.Bindings{"x": "b", "n": 41.0}
@@ -483,6 +487,37 @@ func spin(r *rep.Report) {
 	}
 }
 
+// negativeLocationTimeout: with timeouts on and a system default of 400 ms, a location whose control
+// carries a negative JavascriptTimeout has no limit: a script that computes for about 900 ms and then
+// finishes is unaffected (directly, as condition and as action).  No wall-clock verdict: whatever the
+// load, no time-out may be reported in such a location.
+func negativeLocationTimeout(r *rep.Report) {
+	core.SystemParameters.DefaultJavascriptTimeout = defaultLimit
+	busy := script{"value", "var t0 = new Date().getTime(); var k = 0; while (new Date().getTime() - t0 < 900) { k++; } ", "'computed'", "computed"}
+	for _, kind := range drv.Kinds {
+		for _, pos := range []string{"run", "condition", "action"} {
+			c := tcase{Script: busy, Setting: "control-negative", Pos: pos, State: kind, LimitMs: -1}
+			r.Journal(c)
+			o := runFor(c, 30*time.Second)
+			r.Case(true, fmt.Sprint("negative-location-timeout", c))
+			r.Count("scripts_in_locations_without_a_limit", 1)
+			wit := rep.J{"case": c, "returned": o.returned, "elapsed_ms": o.elapsed.Milliseconds(), "error": o.err, "value": o.value, "system_default_ms": defaultLimit.Milliseconds()}
+			want := busy.Want
+			if pos == "condition" {
+				want = "acted"
+			}
+			switch {
+			case !o.returned:
+				r.Inconclusive("a 900 ms script did not return within 30 s")
+			case o.err != "":
+				r.Violate("", "a finishing script in a location whose control sets a negative JavascriptTimeout (no limit) failed: "+o.err, wit)
+			case o.value != want:
+				r.Violate("", fmt.Sprintf("a finishing script in a location without a limit produced %q, expected %q", o.value, want), wit)
+			}
+		}
+	}
+}
+
 func main() {
 	e := rep.GetEnv()
 	r := rep.New(e)
@@ -501,6 +536,9 @@ func main() {
 		core.SystemParameters.JavascriptTimeouts = false
 	}
 	core.SystemParameters.DefaultJavascriptTimeout = defaultLimit
+	if !disabled && e.Batch == 0 {
+		negativeLocationTimeout(r)
+	}
 	reps := e.Pick(2, 6)
 	hung := 0
 	for rp := 0; rp < reps && hung == 0; rp++ {
